@@ -383,21 +383,47 @@ impl World {
             None => e.features.len() as u64,
             Some(fs) => e.features.iter().filter(|f| fs.contains(f)).count() as u64,
         };
-        let mut ds: BTreeMap<Tag4, i64> = BTreeMap::new();
-        match &def.design {
-            None => {
-                for (t, s, en) in &e.design {
-                    *ds.entry(*t).or_insert(0) += (*en as i64) - (*s as i64);
+        // per axis: merged entry segments, intersected with the merged segments of the definition
+        let merge = |segs: Vec<(i64, i64)>| -> Vec<(i64, i64)> {
+            let mut v = segs;
+            v.sort();
+            let mut out: Vec<(i64, i64)> = Vec::new();
+            for (a, b) in v {
+                if let Some(l) = out.last_mut() {
+                    // 16.16 values one epsilon apart are adjacent and merge
+                    if a <= l.1 + 1 {
+                        l.1 = l.1.max(b);
+                        continue;
+                    }
                 }
+                out.push((a, b));
             }
-            Some(dd) => {
-                for (t, s, en) in &e.design {
-                    for (t2, s2, e2) in dd {
-                        if t == t2 && ranges_overlap((*s, *en), (*s2, *e2)) {
-                            let lo = (*s).max(*s2) as i64;
-                            let hi = (*en).min(*e2) as i64;
-                            *ds.entry(*t).or_insert(0) += hi - lo;
+            out
+        };
+        let mut ds: BTreeMap<Tag4, i64> = BTreeMap::new();
+        let mut tags: Vec<Tag4> = e.design.iter().map(|d| d.0).collect();
+        tags.sort();
+        tags.dedup();
+        for t in tags {
+            let mine = merge(e.design.iter().filter(|d| d.0 == t).map(|d| (d.1 as i64, d.2 as i64)).collect());
+            match &def.design {
+                None => {
+                    ds.insert(t, mine.iter().map(|(a, b)| b - a).sum());
+                }
+                Some(dd) => {
+                    let theirs = merge(dd.iter().filter(|d| d.0 == t).map(|d| (d.1 as i64, d.2 as i64)).collect());
+                    let mut total = 0i64;
+                    let mut any = false;
+                    for (a, b) in &mine {
+                        for (c, d) in &theirs {
+                            if a <= d && c <= b {
+                                any = true;
+                                total += b.min(d) - a.max(c);
+                            }
                         }
+                    }
+                    if any {
+                        ds.insert(t, total);
                     }
                 }
             }
